@@ -169,6 +169,14 @@ def oracle(ck, tier, deep):
                     quiet(abel.rbasex.rbasex_transform, img, order=order, odd=odd, weights=W, basis_dir=bdir)
                     abel.rbasex.cache_cleanup()
                     Ai4 = [a.copy() for a in quiet(abel.rbasex.get_bs_cached, R, order, odd, "inverse", basis_dir=bdir)]
+                    # … and the forward operators asked for next in the same session (the file holds basis and inverse together)
+                    Af4 = [np.array(a) for a in quiet(abel.rbasex.get_bs_cached, R, order, odd, "forward", basis_dir=bdir)]
+                    for k, (a, a4) in enumerate(zip(Af, Af4)):
+                        if a.shape != a4.shape or np.abs(a - a4).max() > 1e-13 * np.abs(a).max():
+                            ck.violation(dict(sig, clause="operator-product-from-disk"), dict(rep, term=k, which="forward after inverse"),
+                                         f"the forward radial operator of term {k}, requested after the inverse was loaded from a basis file, "
+                                         f"differs from the projected basis by {np.abs(a - a4).max():.3g}")
+                            break
                     ck.count(("S.rbasex-from-disk", order, odd, R), suite="S.exact")
                     for k, (b, b4) in enumerate(zip(Ai, Ai4)):
                         if b.shape != b4.shape or np.abs(b - b4).max() > 1e-13 * np.abs(b).max():
